@@ -261,8 +261,8 @@ func (P *Program) resolveModifies(fn *ssa.Function, con *Contract) error {
 			mc.at = x.X
 		case *ast.CallExpr:
 			id, ok := x.Fun.(*ast.Ident)
-			if !ok || (id.Name != "map" && id.Name != "heap") || len(x.Args) != 1 {
-				return fmt.Errorf("modifies %s: expected map(expr) or heap(T.f)", src)
+			if !ok || (id.Name != "mapof" && id.Name != "heap") || len(x.Args) != 1 {
+				return fmt.Errorf("modifies %s: expected mapof(expr) or heap(T.f)", src)
 			}
 			if id.Name == "heap" {
 				// whole field heap of a type: heap(T.f)
